@@ -13,11 +13,13 @@ Ctl.  A run is therefore a deterministic function of (case, schedule).
 """
 import asyncio
 import builtins
+import logging
 import os
 import sys
 import threading
 import time
 
+logging.getLogger("asyncio").setLevel(logging.CRITICAL)
 REPO = os.environ.get("TAWAZI_REPO", "/repo")
 if sys.path[0] != REPO:
     sys.path.insert(0, REPO)
@@ -82,6 +84,7 @@ class Ctl:
         self.simultaneous = simultaneous
         self.free_run = free_run  # no gating: nodes run through (used by value-level cases)
         self.cfgs = []  # one configuration dict per async_execute call
+        self.res0s = []  # the results dict each async_execute call starts from
         self.inside = 0
         self.n_submit_t = 0
         self.n_async_started = 0
@@ -158,32 +161,15 @@ class TaggedResults(StrictDict):
 
 
 def mknode(name, ret, **kw):
-    """a decorated node function recording ENTER/EXIT and blocking on its gate on worker threads.
-
-    `ret` is either a value or a callable(*args, **kwargs) computing the returned value."""
+    """a decorated node function. `ret` is either a value or a callable(*args, **kwargs) computing the
+    returned value.  Observation and gating happen in the ExecNode.execute wrapper (keyed by node id);
+    the function itself only implements 'this node fails' for cases that name it in Ctl.fails."""
 
     def f(*a, **k):
         ctl = cur()
-        if ctl is None:
-            return ret(*a, **k) if callable(ret) else ret
-        inline = ctl.on_sched()
-        with ctl.lock:
-            ctl.inside += 1
-        try:
-            ctl.ev("ENTER", name, inline, threading.get_ident())
-            if not inline and not ctl.free_run:
-                with ctl.lock:
-                    g = ctl.gates.setdefault(name, threading.Event())
-                    ctl.entered.add(name)
-                    ctl.entered_ever.add(name)
-                g.wait(30)
-            ctl.ev("EXIT", name, inline)
-            if name in ctl.fails:
-                raise NodeBoom(name)
-            return ret(*a, **k) if callable(ret) else ret
-        finally:
-            with ctl.lock:
-                ctl.inside -= 1
+        if ctl is not None and name in ctl.fails:
+            raise NodeBoom(name)
+        return ret(*a, **k) if callable(ret) else ret
 
     f.__qualname__ = name
     f.__name__ = name
@@ -324,6 +310,7 @@ if not MISSING:
 
     def _execute(self, results, profiles, ctl):
         inline = ctl.on_sched()
+        nid = self.id
         seen = []
         for u in list(self.args) + [u for k, u in self.kwargs.items() if k not in ("twz_tag", "twz_active", "twz_unpack_to")]:
             try:
@@ -331,6 +318,7 @@ if not MISSING:
             except BaseException as e:  # noqa: BLE001
                 seen.append(("<raises>", type(e).__name__))
         if inline and not ctl.free_run:
+            # make real overlap observable: every thread node already handed out has entered by now
             t0 = time.time()
             while time.time() - t0 < 0.5:
                 with ctl.lock:
@@ -338,22 +326,36 @@ if not MISSING:
                 if not pending:
                     break
                 time.sleep(0.0002)
-        ctl.ev("XENTER", self.id, inline, seen)
-        if not inline:
-            with ctl.lock:
-                ctl.n_xenter_worker += 1
-                if self.resource == Resource.thread:
-                    ctl.n_xenter_thread += 1
+        with ctl.lock:
+            ctl.inside += 1
+        ctl.ev("XENTER", nid, inline, seen, threading.get_ident())
         try:
-            r = orig_execute(self, results, profiles)
-            ctl.ev("XEXIT", self.id, inline, True, r)
-            return r
-        except BaseException as e:
-            ctl.ev("XEXIT", self.id, inline, False, e)
-            raise
-        finally:
             if not inline:
                 with ctl.lock:
+                    ctl.n_xenter_worker += 1
+                    if self.resource == Resource.thread:
+                        ctl.n_xenter_thread += 1
+                    g = ctl.gates.setdefault(nid, threading.Event())
+                    ctl.entered.add(nid)
+                    ctl.entered_ever.add(nid)
+                if not ctl.free_run:
+                    g.wait(30)
+            try:
+                r = orig_execute(self, results, profiles)
+                ctl.ev("XEXIT", nid, inline, True, r)
+                return r
+            except BaseException as e:
+                ctl.ev("XEXIT", nid, inline, False, e)
+                try:
+                    if getattr(e, "_verif_node", None) is None:
+                        e._verif_node = nid
+                except Exception:  # noqa: BLE001
+                    pass
+                raise
+        finally:
+            with ctl.lock:
+                ctl.inside -= 1
+                if not inline:
                     ctl.n_xexit_worker += 1
 
     N.ExecNode.execute = execute
@@ -383,6 +385,7 @@ if not MISSING:
             missing_xn=[i for i in nodes if i not in xns],
         )
         ctl.cfgs.append(cfg)
+        ctl.res0s.append(dict(res))
         tagged = TaggedResults(res)
         tagged._verif_ctl = ctl
         kw = dict(kw, results=tagged)
@@ -399,12 +402,22 @@ if not MISSING:
     D.async_execute = ae
 
 
+MSG_RE = __import__("re").compile(r"Error occurred while executing ExecNode (.+?) at ")
+
+
 def failing_node_of(exc):
-    """the node whose function raised, from the exception chain (NodeBoom) or tawazi's message."""
+    """the node whose execution raised: from the XEXIT record attached by the execute wrapper, tawazi's
+    message, or the NodeBoom in the exception chain."""
     seen = set()
     e = exc
     while e is not None and id(e) not in seen:
         seen.add(id(e))
+        n = getattr(e, "_verif_node", None)
+        if n is not None:
+            return n
+        m = MSG_RE.search(str(e)) if type(e).__name__ == "TawaziBaseException" else None
+        if m:
+            return m.group(1)
         if isinstance(e, NodeBoom):
             return e.node
         e = e.__cause__ or e.__context__
